@@ -570,7 +570,7 @@ fn signed(run: &mut Run, w: &World, id: &str, r: &mut Rng, exhaustive: bool) {
         let mut kb = [0u8; 32];
         kb.copy_from_slice(pk.as_ref());
         kb[p / 8] ^= 1 << (p % 8);
-        one_load(run, w, id, "key-bit-flip", &base, &PublicKey::from(kb), &base.text, &base.sig, true, j < 2);
+        one_load(run, w, id, "key-bit-flip", &base, &PublicKey::from(kb), &base.text, &base.sig, true, j < 1);
     }
     // signature: by another key over the same text; bit flips; truncation
     let sig_other = refs.clone().signed(&other).unwrap().signature.as_ref().to_vec();
@@ -579,7 +579,7 @@ fn signed(run: &mut Run, w: &World, id: &str, r: &mut Rng, exhaustive: bool) {
     for (j, p) in sig_positions.iter().enumerate() {
         let mut s = base.sig.clone();
         s[p / 8] ^= 1 << (p % 8);
-        one_load(run, w, id, "sig-bit-flip", &base, &pk, &base.text, &s, true, j < 2);
+        one_load(run, w, id, "sig-bit-flip", &base, &pk, &base.text, &s, true, j < 1);
     }
     one_load(run, w, id, "sig-truncated", &base, &pk, &base.text, &base.sig[..63], true, true);
 
@@ -600,7 +600,7 @@ fn signed(run: &mut Run, w: &World, id: &str, r: &mut Rng, exhaustive: bool) {
         if t[*p] == old {
             t[*p] = old ^ 2;
         }
-        one_load(run, w, id, "text-byte-change", &base, &pk, &t, &base.sig, true, j < 3);
+        one_load(run, w, id, "text-byte-change", &base, &pk, &t, &base.sig, true, j < 2);
     }
     // semantic single changes: one oid, one name, one ref added / removed
     if !l.is_empty() {
@@ -813,7 +813,7 @@ fn main() {
         repo_ok: MockRepository::new(RepoId::from(blob_oid), doc.clone()),
         repo_bad: MockRepository::new(RepoId::from(oid_of(&[0x42; 20])), doc),
     };
-    let n = run.args.count(120, 500);
+    let n = run.args.count(80, 400);
     for i in 0..n {
         for stream in 0u64..4 {
             let id = format!("{}:{}", stream, i);
